@@ -136,6 +136,19 @@ def run(chk: Check):
                             {"class": c.__name__, "attr": attr, "enum": cls.__name__, "string": m.value, "after": "every wire text of every enumeration through every enumerated function's converter"},
                         )
 
+    # ... nor on what was ENCODED before: every function's whole converter first encodes every member of its
+    # enumerations (what a write does), then the recorded values are decoded through it below
+    for c, funcs in table:
+        for attr, f in funcs:
+            parts = f.converter._converters if type(f.converter) is C.MultiConverter else [f.converter]
+            for p in parts:
+                if type(p) is C.EnumConverter:
+                    for m in p.datatype.__members__.values():
+                        try:
+                            f.converter.to_str(m)
+                        except Exception:  # noqa
+                            pass
+
     # ------------------------------------------------------------ implementation + monitor: recorded triples
     by_id = {}
     for c, funcs in table:
